@@ -7,6 +7,7 @@ import (
 	"path/filepath"
 	"sort"
 	"strings"
+	"sync"
 	"time"
 
 	"github.com/btcsuite/btcd/blockchain"
@@ -142,10 +143,83 @@ func (l *liveChain) mine(ts int64) error {
 	return nil
 }
 
+// compact forms of the rows of a history state (the dumps of the thorough
+// tier are too large to keep as parsed values)
+type seqIn struct {
+	hi, lo uint32
+	h      int32 // height of the spent output, -1 = mempool
+}
+
+type lockRow struct {
+	version int32
+	mp, cb  bool
+	ins     []seqIn
+	secs    int64
+	height  int32
+	met     bool
+}
+
+type blockRow struct {
+	version int32
+	ins     []seqIn
+	ok      bool
+}
+
 type histNode struct {
-	st       tla.State
-	chain    []int64
-	children []*histNode
+	pre       int
+	chain     []int64
+	tip       int
+	mtp       int64
+	csv, next bool
+	locks     []lockRow
+	blocks    []blockRow
+	isLeaf    bool
+}
+
+func insOf(v tla.Value) []seqIn {
+	out := make([]seqIn, 0, v.Len())
+	for _, in := range v.Seq() {
+		out = append(out, seqIn{uint32(in.At(1).I), uint32(in.At(2).I), int32(in.At(3).I)})
+	}
+	return out
+}
+
+func (s seqIn) seq() uint32 { return s.hi<<16 | s.lo }
+
+func insString(ins []seqIn) string {
+	var sb strings.Builder
+	sb.WriteString("<<")
+	for i, in := range ins {
+		if i > 0 {
+			sb.WriteString(", ")
+		}
+		fmt.Fprintf(&sb, "<<%d, %d, %d>>", in.hi, in.lo, in.h)
+	}
+	sb.WriteString(">>")
+	return sb.String()
+}
+
+func (r lockRow) String() string {
+	return fmt.Sprintf("<<version %d, mempool %v, coinbase %v, inputs %s, seconds %d, height %d, met %v>>", r.version, r.mp, r.cb, insString(r.ins), r.secs, r.height, r.met)
+}
+
+func (r blockRow) String() string {
+	return fmt.Sprintf("<<version %d, inputs %s, allowed %v>>", r.version, insString(r.ins), r.ok)
+}
+
+func nodeOf(s tla.State) *histNode {
+	ex := s["expect"]
+	n := &histNode{pre: s["pre"].Int(), tip: ex.F("tip").Int(), mtp: ex.F("mtp").I, csv: ex.F("csv").Bool(), next: ex.F("csvNext").Bool()}
+	for _, v := range s["chain"].Seq() {
+		n.chain = append(n.chain, v.I)
+	}
+	for _, r := range ex.F("locks").Set() {
+		n.locks = append(n.locks, lockRow{int32(r.At(1).I), r.At(2).Bool(), r.At(3).Bool(), insOf(r.At(4)), r.At(5).I, int32(r.At(6).I), r.At(7).Bool()})
+	}
+	for _, r := range ex.F("blocks").Set() {
+		n.blocks = append(n.blocks, blockRow{int32(r.At(1).I), insOf(r.At(2)), r.At(3).Bool()})
+	}
+	return n
 }
 
 func chainKey(ts []int64) string {
@@ -157,35 +231,31 @@ func chainKey(ts []int64) string {
 }
 
 func runBip68(c *vrun.Ctx) error {
-	states, err := model(c, "Bip68", 4, []string{"Mine"})
+	// a history is its own path: the tree is rebuilt from the states
+	byKey := map[string]*histNode{}
+	var nodes []*histNode
+	err := model(c, "Bip68", 4, []string{"Mine"}, func(s tla.State) error {
+		n := nodeOf(s)
+		n.isLeaf = true
+		byKey[chainKey(n.chain)] = n
+		nodes = append(nodes, n)
+		return nil
+	})
 	if err != nil {
 		return err
 	}
-	// rebuild the tree of histories from the states (a history is its own path)
-	byKey := map[string]*histNode{}
-	var nodes []*histNode
-	for _, s := range states {
-		var ts []int64
-		for _, v := range s["chain"].Seq() {
-			ts = append(ts, v.I)
-		}
-		n := &histNode{st: s, chain: ts}
-		byKey[chainKey(ts)] = n
-		nodes = append(nodes, n)
-	}
 	var leaves []*histNode
 	for _, n := range nodes {
-		pre := n.st["pre"].Int()
-		if len(n.chain) > pre+1 {
+		if len(n.chain) > n.pre+1 {
 			p := byKey[chainKey(n.chain[:len(n.chain)-1])]
 			if p == nil {
 				return fmt.Errorf("Bip68.tla: history %v has no parent state in the dump", n.chain)
 			}
-			p.children = append(p.children, n)
+			p.isLeaf = false
 		}
 	}
 	for _, n := range nodes {
-		if len(n.children) == 0 {
+		if n.isLeaf {
 			leaves = append(leaves, n)
 		}
 	}
@@ -193,11 +263,10 @@ func runBip68(c *vrun.Ctx) error {
 	st := newStats()
 	var fe firstErr
 	done := map[*histNode]bool{}
-	var doneMu = make(chan struct{}, 1)
-	doneMu <- struct{}{}
+	var doneMu sync.Mutex
 	claim := func(n *histNode) bool {
-		<-doneMu
-		defer func() { doneMu <- struct{}{} }()
+		doneMu.Lock()
+		defer doneMu.Unlock()
 		if done[n] {
 			return false
 		}
@@ -207,7 +276,7 @@ func runBip68(c *vrun.Ctx) error {
 	// one real chain per leaf history; every state on the way is checked once
 	c.Parallel(len(leaves), func(i int) {
 		leaf := leaves[i]
-		pre := leaf.st["pre"].Int()
+		pre := leaf.pre
 		lc, err := newLiveChain(leaf.chain[0], pre+2)
 		if err != nil {
 			fe.set(err)
@@ -245,9 +314,11 @@ func runBip68(c *vrun.Ctx) error {
 	if fe.err != nil {
 		return fe.err
 	}
-	for _, n := range nodes {
-		if !done[n] {
-			return fmt.Errorf("Bip68.tla: state %v was not reached by any replayed history", n.chain)
+	if c.Violations() == 0 {
+		for _, n := range nodes {
+			if !done[n] {
+				return fmt.Errorf("Bip68.tla: state %v was not reached by any replayed history", n.chain)
+			}
 		}
 	}
 	c.Logf("Bip68 histories replayed: %d leaf histories, %s", len(leaves), st)
@@ -257,54 +328,48 @@ func runBip68(c *vrun.Ctx) error {
 	return nil
 }
 
-func seqOf(in tla.Value) uint32 { return uint32(in.At(1).I)<<16 | uint32(in.At(2).I) }
-
 func checkHistoryState(c *vrun.Ctx, lc *liveChain, n *histNode, st *stats) error {
-	ex := n.st["expect"]
-	tip := ex.F("tip").Int()
+	tip := n.tip
 	if tip != lc.tip() {
 		return fmt.Errorf("Bip68: state tip %d, real chain tip %d", tip, lc.tip())
 	}
 	snap := lc.chain.BestSnapshot()
-	hist := map[string]any{"chain": n.chain, "pre": n.st["pre"].Int()}
+	hist := map[string]any{"chain": n.chain, "pre": n.pre}
 	c.AddEval(1)
 	if snap.Height != int32(tip) {
 		return fmt.Errorf("Bip68: real best height %d, expected %d", snap.Height, tip)
 	}
-	if got, want := snap.MedianTime.Unix(), ex.F("mtp").I; got != want {
+	if got, want := snap.MedianTime.Unix(), n.mtp; got != want {
 		c.Violation("bip68:median-time", fmt.Sprintf("median time past of the tip at height %d is %d, the definition gives %d (block times %v)", tip, got, want, n.chain), hist)
 	}
-	c.Distinct(fmt.Sprintf("hist/pre=%d/tip=%d/csv=%v/mtp-rank=%d", n.st["pre"].Int(), tip, ex.F("csv").Bool(), mtpRank(n.chain, ex.F("mtp").I)))
+	c.Distinct(fmt.Sprintf("hist/pre=%d/tip=%d/csv=%v/mtp-rank=%d", n.pre, tip, n.csv, mtpRank(n.chain, n.mtp)))
 
 	// the transaction-level table
-	for _, r := range ex.F("locks").Set() {
-		version, mp, cb := int32(r.At(1).I), r.At(2).Bool(), r.At(3).Bool()
-		ins := r.At(4).Seq()
-		wantS, wantH, wantMet := r.At(5).I, int32(r.At(6).I), r.At(7).Bool()
-		tx := wire.NewMsgTx(version)
+	for _, r := range n.locks {
+		tx := wire.NewMsgTx(r.version)
 		view := blockchain.NewUtxoViewpoint()
-		for k, in := range ins {
+		for k, in := range r.ins {
 			h := chainhash.Hash{0xcc, byte(k + 1)}
 			op := wire.NewOutPoint(&h, uint32(k))
-			if cb {
+			if r.cb {
 				op = wire.NewOutPoint(&chainhash.Hash{}, wire.MaxPrevOutIndex)
 			}
 			ti := wire.NewTxIn(op, nil, nil)
-			ti.Sequence = seqOf(in)
+			ti.Sequence = in.seq()
 			tx.AddTxIn(ti)
-			ih := int32(in.At(3).I)
+			ih := in.h
 			if ih < 0 {
 				ih = mempoolHeight
 			}
 			view.Entries()[*op] = blockchain.NewUtxoEntry(wire.NewTxOut(1000, []byte{0x51}), ih, false)
 		}
 		tx.AddTxOut(wire.NewTxOut(1, []byte{0x51}))
-		replay := map[string]any{"history": hist, "row": r.Go(), "row_format": "version, mempool, coinbase, inputs <<hi, lo, height (-1 = mempool)>>, lock seconds, lock height, met in next block"}
+		replay := map[string]any{"history": hist, "row": r.String(), "note": "input = <<hi, lo, height of the spent output (-1 = mempool)>>, sequence number = hi*65536+lo"}
 		st.add("lock-queries")
 		c.AddEval(2)
 		var lock *blockchain.SequenceLock
 		var err error
-		if p := guard(func() { lock, err = lc.chain.CalcSequenceLock(btcutil.NewTx(tx), view, mp) }); p != nil {
+		if p := guard(func() { lock, err = lc.chain.CalcSequenceLock(btcutil.NewTx(tx), view, r.mp) }); p != nil {
 			c.Violation("bip68:calc-panics", fmt.Sprintf("CalcSequenceLock panics (row %s): %v", r, p), replay)
 			continue
 		}
@@ -312,44 +377,41 @@ func checkHistoryState(c *vrun.Ctx, lc *liveChain, n *histNode, st *stats) error
 			c.Violation("bip68:calc-error", fmt.Sprintf("CalcSequenceLock fails on available inputs (row %s): %v", r, err), replay)
 			continue
 		}
-		if lock.Seconds != wantS || lock.BlockHeight != wantH {
+		if lock.Seconds != r.secs || lock.BlockHeight != r.height {
 			kind := "height"
-			if lock.Seconds != wantS {
+			if lock.Seconds != r.secs {
 				kind = "seconds"
 			}
 			c.Violation("bip68:lock:"+kind, fmt.Sprintf("CalcSequenceLock(version %d, mempool=%v, coinbase=%v, inputs %s) on the chain with times %v = (seconds %d, height %d), the definition gives (%d, %d)",
-				version, mp, cb, r.At(4), n.chain, lock.Seconds, lock.BlockHeight, wantS, wantH), replay)
+				r.version, r.mp, r.cb, insString(r.ins), n.chain, lock.Seconds, lock.BlockHeight, r.secs, r.height), replay)
 			continue
 		}
-		if got := blockchain.SequenceLockActive(lock, int32(tip)+1, snap.MedianTime); got != wantMet {
-			c.Violation("bip68:lock-met", fmt.Sprintf("SequenceLockActive(lock (%d, %d), height %d, median time %d) = %v, the definition says %v", lock.Seconds, lock.BlockHeight, tip+1, snap.MedianTime.Unix(), got, wantMet), replay)
+		if got := blockchain.SequenceLockActive(lock, int32(tip)+1, snap.MedianTime); got != r.met {
+			c.Violation("bip68:lock-met", fmt.Sprintf("SequenceLockActive(lock (%d, %d), height %d, median time %d) = %v, the definition says %v", lock.Seconds, lock.BlockHeight, tip+1, snap.MedianTime.Unix(), got, r.met), replay)
 		}
 	}
 
 	// the block-level table: the next block with one locked transaction,
 	// through the whole validation path (no state is changed)
-	for _, r := range ex.F("blocks").Set() {
-		version := int32(r.At(1).I)
-		ins := r.At(2).Seq()
-		wantOK := r.At(3).Bool()
-		tx := wire.NewMsgTx(version)
+	for _, r := range n.blocks {
+		tx := wire.NewMsgTx(r.version)
 		used := map[int]int{}
 		total := int64(0)
-		for _, in := range ins {
-			ih := int(in.At(3).I)
+		for _, in := range r.ins {
+			ih := int(in.h)
 			if ih < 1 || ih > tip {
 				return fmt.Errorf("Bip68.tla: block query spends height %d with tip %d", ih, tip)
 			}
 			cbh := lc.blocks[ih].MsgBlock().Transactions[0].TxHash()
 			ti := wire.NewTxIn(wire.NewOutPoint(&cbh, uint32(used[ih])), nil, nil)
 			used[ih]++
-			ti.Sequence = seqOf(in)
+			ti.Sequence = in.seq()
 			tx.AddTxIn(ti)
 			total += cbValue
 		}
 		tx.AddTxOut(wire.NewTxOut(total, []byte{0x51}))
-		cand := lc.candidate(ex.F("mtp").I+1, []*wire.MsgTx{tx}, false)
-		replay := map[string]any{"history": hist, "row": r.Go(), "row_format": "version, inputs <<hi, lo, height of the spent coinbase>>, allowed in the next block"}
+		cand := lc.candidate(n.mtp+1, []*wire.MsgTx{tx}, false)
+		replay := map[string]any{"history": hist, "row": r.String(), "note": "input = <<hi, lo, height of the spent coinbase>>"}
 		st.add("block-queries")
 		c.AddEval(1)
 		var err error
@@ -358,19 +420,19 @@ func checkHistoryState(c *vrun.Ctx, lc *liveChain, n *histNode, st *stats) error
 			continue
 		}
 		switch {
-		case wantOK && err != nil:
+		case r.ok && err != nil:
 			c.Violation("bip68:block-refused", fmt.Sprintf("a block at height %d with a version %d transaction, inputs %s, is refused (%v) on the chain with times %v although its relative locks are met (deployment active for it: %v)",
-				tip+1, version, r.At(2), err, n.chain, ex.F("csvNext").Bool()), replay)
-		case !wantOK && err == nil:
-			c.Violation("bip68:block-accepted", fmt.Sprintf("a block at height %d with a version %d transaction, inputs %s, is accepted on the chain with times %v although a relative lock is not met", tip+1, version, r.At(2), n.chain), replay)
-		case !wantOK:
+				tip+1, r.version, insString(r.ins), err, n.chain, n.next), replay)
+		case !r.ok && err == nil:
+			c.Violation("bip68:block-accepted", fmt.Sprintf("a block at height %d with a version %d transaction, inputs %s, is accepted on the chain with times %v although a relative lock is not met", tip+1, r.version, insString(r.ins), n.chain), replay)
+		case !r.ok:
 			if code, ok := ruleCode(err); !ok || code != blockchain.ErrUnfinalizedTx {
 				c.Violation("bip68:block-error-class", fmt.Sprintf("a block with an unmet relative lock is refused with %v instead of the unfinalized-transaction rule", err), replay)
 			}
 		}
 	}
-	if tip >= 2 && len(c.Ev.Coverage.Samples) < 6 {
-		c.Sample(map[string]any{"kind": "bip68-history", "block_times": n.chain, "mtp": ex.F("mtp").I, "lock_rows": ex.F("locks").Len(), "block_rows": ex.F("blocks").Len()})
+	if tip >= 2 && tip <= 3 {
+		c.Sample(map[string]any{"kind": "bip68-history", "block_times": n.chain, "mtp": n.mtp, "lock_rows": len(n.locks), "block_rows": len(n.blocks)})
 	}
 	return nil
 }
